@@ -53,7 +53,7 @@ package bpv7
 
 // Input well-formedness of in-memory bundles: block values are non-nil and a block whose type code is registered with
 // the extension block manager has the registered Go type (true for parsed bundles and for blocks made by the constructors).
-// govc:spec cbsNonNil(cbs []CanonicalBlock) bool = forall j int :: 0 <= j && j < len(cbs) ==> cbs[j].Value != nil && (cbs[j].Value.BlockTypeCode() == 7 ==> is(cbs[j].Value, *BundleAgeBlock)) && (cbs[j].Value.BlockTypeCode() == 1 ==> is(cbs[j].Value, *PayloadBlock)) && (cbs[j].Value.BlockTypeCode() == 10 ==> is(cbs[j].Value, *HopCountBlock)) && (cbs[j].Value.BlockTypeCode() == 6 ==> is(cbs[j].Value, *PreviousNodeBlock))
+// govc:spec cbsNonNil(cbs []CanonicalBlock) bool = forall j int :: 0 <= j && j < len(cbs) ==> cbs[j].Value != nil && ref(cbs[j].Value) != 0 && (cbs[j].Value.BlockTypeCode() == 7 ==> is(cbs[j].Value, *BundleAgeBlock)) && (cbs[j].Value.BlockTypeCode() == 1 ==> is(cbs[j].Value, *PayloadBlock)) && (cbs[j].Value.BlockTypeCode() == 10 ==> is(cbs[j].Value, *HopCountBlock)) && (cbs[j].Value.BlockTypeCode() == 6 ==> is(cbs[j].Value, *PreviousNodeBlock))
 // govc:spec blocksNonNil(b Bundle) bool = cbsNonNil(b.CanonicalBlocks)
 
 // govc:func (*Bundle).ExtensionBlock property C02 C06
@@ -95,3 +95,38 @@ package bpv7
 //@ loop 1 invariant errs == nil ==> forall j int :: 0 <= j && j < rangeindex + 1 ==> has(cbBlockNumbers, b.CanonicalBlocks[j].BlockNumber) && has(cbBlockTypes, b.CanonicalBlocks[j].Value.BlockTypeCode())
 //@ loop 1 invariant errs == nil ==> forall j, k int :: 0 <= j && j < k && k < rangeindex + 1 ==> b.CanonicalBlocks[j].BlockNumber != b.CanonicalBlocks[k].BlockNumber @thorough
 //@ loop 1 invariant errs == nil ==> forall j, k int :: 0 <= j && j < k && k < rangeindex + 1 ==> b.CanonicalBlocks[j].Value.BlockTypeCode() != b.CanonicalBlocks[k].Value.BlockTypeCode() @thorough
+
+// ---- binary spray block (C18): one unsigned integer, the copies announced to the receiver ----
+// govc:func (*BinarySprayBlock).RemainingCopies property C18
+//@ opt inline true
+//@ assigns nothing
+//@ ensures result == uint64(*bsb)
+
+// govc:func (*BinarySprayBlock).SetCopies property C18
+//@ opt inline true
+//@ assigns *bsb
+//@ ensures uint64(*bsb) == newValue
+
+// A block whose type code is the binary spray code carries a *BinarySprayBlock once that type is registered with the
+// extension block manager (NewBinarySpray registers it before any bundle is processed).
+// govc:spec sprayTyped(b Bundle) bool = forall j int :: 0 <= j && j < len(b.CanonicalBlocks) ==> (b.CanonicalBlocks[j].Value.BlockTypeCode() == 192 ==> is(b.CanonicalBlocks[j].Value, *BinarySprayBlock) && ref(b.CanonicalBlocks[j].Value) != 0)
+
+// AddExtensionBlock (assumed here, the numbering loop is outside this property): the bundle gains exactly the given
+// block value at some position; every other position holds one of the old blocks (same value object).
+// govc:trusted (*Bundle).AddExtensionBlock
+//@ assigns b.CanonicalBlocks, elems(b.CanonicalBlocks)
+//@ let at := uf("addedAt", int, b, ref(block.Value))
+//@ ensures len(b.CanonicalBlocks) == old(len(b.CanonicalBlocks)) + 1 && 0 <= at && at < len(b.CanonicalBlocks)
+//@ ensures b.CanonicalBlocks[at].Value == block.Value
+//@ ensures forall j int :: 0 <= j && j < len(b.CanonicalBlocks) && j != at ==> 0 <= uf("addedPerm", int, b, ref(block.Value), j) && uf("addedPerm", int, b, ref(block.Value), j) < old(len(b.CanonicalBlocks)) && b.CanonicalBlocks[j].Value == old(b.CanonicalBlocks[uf("addedPerm", int, b, ref(block.Value), j)].Value)
+//@ ensures old(blocksNonNil(*b)) && block.Value != nil ==> blocksNonNil(*b)
+
+// The copies announced by a bundle: the value of its binary spray block (a valid bundle has at most one block per
+// type, C02).
+// govc:spec sprayUnique(b Bundle) bool = forall j, k int :: 0 <= j && j < len(b.CanonicalBlocks) && 0 <= k && k < len(b.CanonicalBlocks) && b.CanonicalBlocks[j].Value.BlockTypeCode() == 192 && b.CanonicalBlocks[k].Value.BlockTypeCode() == 192 ==> j == k
+// govc:spec sprayIs(b Bundle, x uint64) bool = forall j int :: 0 <= j && j < len(b.CanonicalBlocks) && b.CanonicalBlocks[j].Value.BlockTypeCode() == 192 ==> uint64(*(b.CanonicalBlocks[j].Value.(*BinarySprayBlock))) == x
+
+// govc:func (*PreviousNodeBlock).Endpoint property C13
+//@ opt inline true
+//@ assigns nothing
+//@ ensures result == EndpointID(*pnb)
